@@ -8,6 +8,6 @@ CONSTANTS
     Mode = "mc"
     Depth = 0
 VIEW View
-INVARIANTS NeverEndedTwice EndedExactlyOnce OnlyStartedSpansEnd ErrorIffFailed ParentedOnCaller CountedOnceWithStatus NeverCountedTwice CounterTotalsDispatches LedgerMatchesRequests
+INVARIANTS NeverEndedTwice EndedExactlyOnce OnlyStartedSpansEnd NonRecordingLeftAlone ErrorIffFailed ParentedOnCaller CountedOnceWithStatus NeverCountedTwice CounterTotalsDispatches LedgerMatchesRequests
 PROPERTIES NoHookNoTrace ExpConsistent
 CHECK_DEADLOCK FALSE
